@@ -404,6 +404,11 @@ func classify(sender, peer string) string {
 func c02gen(c *h.Ctx, yield func(*h.Case)) {
 	r := c.Rng
 	val := 0
+	// witnesses of repaired defects and of seeded changes that were once missed run first
+	for _, cs := range fix.LoadCorpus("C02") {
+		c.Count("class=corpus")
+		yield(cs)
+	}
 	cfg := func(root bool, k int) string {
 		var ns []string
 		n := k + 2
